@@ -18,7 +18,7 @@ Init == l = 1 /\ nbad = 0
 
 Good(p) == {d \in DOMAIN p.blobs : p.blobs[d]}
 \* a recorded projection as a CrashCore store (debris is not compared)
-ToSt(p) == [man |-> p.man, blobs |-> Good(p), tmp |-> 0, part |-> <<>>]
+ToSt(p) == [man |-> p.man, blobs |-> Good(p), tmp |-> 0, part |-> <<>>, links |-> {}]
 ScenOf(t) == Trace[CHOOSE i \in DOMAIN Trace : Trace[i].ev = "scenario" /\ Trace[i].t = t]
 \* the operation as CrashCore sees it: the version it stores is the one the uninterrupted run stored
 OpOf(sc) == [op |-> sc.op.op, n |-> sc.op.n, m |-> sc.op.m,
